@@ -25,6 +25,9 @@ CLAIMS = {
  "C16": dict(tech=SMT + "; the two halves of the for instruction are extracted byte-for-byte from LuaCont.RunInThread on every run (fragments)", ref="DESIGN.md §8 C16",
   text="Step contracts of the numeric for loop, for all int64/float64 operands: forprep (the else branch of the for opcode, extracted verbatim from LuaCont.RunInThread) returns an error exactly when an operand is not a number or the step is zero, makes the loop an integer loop exactly when start and step are integers (otherwise converts the other to float), leaves the limit as is, and sets the control register to nil exactly when NOT (start <= limit) resp. NOT (limit <= start) in the exact mixed order of C02 (so NaN start/limit give an empty loop); foradv writes start+step, or nil exactly when the exact sum passes the limit or the 64-bit addition overflows - never a wrapped value. astcomp.ProcessForStat is proved to hand the same three private registers (obtained from GetFreeRegister) to both instructions and to give the body a separate register for the loop variable. The composition of the step contracts into whole-loop termination, and the compiler below ProcessForStat, are not machine-checked.",
   note="Trusted: fragment wrappers (generated; region text identical to the source, returns rewritten mechanically), spec functions (exact order, addOverflows), amd64 float-to-int conversion semantics, ghost predicate fromGetFreeRegister defined by the assumed contract of ir.GetFreeRegister, setReg treated as external with its arguments asserted, string operands excluded by precondition (ToNumberValue's string path goes through strconv)."),
+ "C03": dict(tech=SMT, ref="DESIGN.md §8 C03",
+  text="Stage 1 of C03, for all int64 indices and all array sizes (quantified invariants, no bound): the array part keeps its border invariant (everything from len on is nil, the element at len is not) under get/setValue/resetValue/remove/grow, each of which changes only the addressed position; array.next returns the next position holding a value (or 0) from any position of the array part, including one whose value has just been cleared; the mixed table always hands the NORMALISED key (integer-valued floats as integers) to the hash part in get/insert/reset/remove/next, never consults the hash part for an integer key inside the array part, reports from the array part a length that is a border and otherwise a length l with t[l+1] absent and t[l] present, and growing moves only non-nil values into the array part; StringValue packs strings of at most 7 bytes (bytes + length) into the scalar that string-key equality and hashing use, and nothing else. The chained hash table itself (findSlot/insertNewKeyValue/copyItems) is assumed through frame contracts; Value.Equals/Hash consistency and the metamethod wiring in SetIndex/Index are not decided.",
+  note="Trusted: frame contracts of the hash part (find is a function of the hash part's state; set/reset/removeKey/grow/cleanup touch only hash-part objects), calculateArraySize result < 2^46 (a table never holds that many integer keys), classifyIndices; float bit patterns abstracted in integer mode (f64bits_int / asfloat_of); little-endian amd64 for the 8-byte read in StringValue; ground instantiation of assumed quantified facts at the function's index terms (sound: instances of hypotheses)."),
 }
 
 NA = {
